@@ -8,25 +8,27 @@ def sh(cmd, cwd=None, env=None, timeout=3600):
     return p.returncode, p.stdout
 
 env = dict(os.environ, GOFLAGS='-mod=mod', GOPROXY='off', GOSUMDB='off', GOTOOLCHAIN='local')
+REPO = os.environ.get('VERIF_REPO', '/repo')
+VERIF = os.path.dirname(os.path.dirname(os.path.abspath(__file__)))
 d = sys.argv[1]
 ids = sys.argv[2:]
 patch = os.path.join(d, 'patch.diff')
-rc, out = sh('git -C /repo status --porcelain')
+rc, out = sh('git -C %s status --porcelain' % REPO)
 if out.strip():
     print('refusing: /repo is not clean'); sys.exit(2)
-rc, out = sh('git -C /repo apply --whitespace=nowarn %s' % patch)
+rc, out = sh('git -C %s apply --whitespace=nowarn %s' % (REPO, patch))
 if rc != 0:
     print('patch does not apply:', out); sys.exit(2)
 res = {'patch': patch, 'checks': {}}
 try:
-    rc, out = sh('go build ./... && go test -vet=off -count=1 ./... 2>&1 | tail -8', cwd='/repo', env=env)
+    rc, out = sh('go build ./... && go test -vet=off -count=1 ./... 2>&1 | tail -8', cwd=REPO, env=env)
     res['tests_pass'] = (rc == 0 and 'FAIL' not in out)
     print('repo tests with the change:', 'pass' if res['tests_pass'] else 'FAIL\n' + out)
     for pid in ids:
         t0 = time.time()
-        evp = '/verif/evidence/%s.json' % pid
+        evp = VERIF + '/evidence/%s.json' % pid
         saved = open(evp).read() if os.path.exists(evp) else None   # evidence of a mutated tree must not replace the real one
-        rc, out = sh('bin/vcheck %s --tier quick' % pid, cwd='/verif', env=env)
+        rc, out = sh('bin/vcheck %s --tier quick' % pid, cwd=VERIF, env=env)
         lines = [l for l in out.split('\n') if l.startswith('VIOLATION') or l.startswith('KNOWN-FINDING')]
         keys = []
         for l in lines:
@@ -38,7 +40,7 @@ try:
                     keys.append((rp, '', False))
         broken = []
         try:
-            ev = json.load(open('/verif/evidence/%s.json' % pid))
+            ev = json.load(open(evp))
             broken = [o['name'] for o in ev['coverage'].get('obligation_failures', [])]
         except Exception:
             pass
@@ -51,5 +53,5 @@ try:
         if rc not in (0, 1):
             print(out[-1500:])
 finally:
-    sh('git -C /repo checkout -- . && git -C /repo clean -fdq')
+    sh('git -C %s checkout -- . && git -C %s clean -fdq' % (REPO, REPO))
 json.dump(res, open(os.path.join(d, 'vcheck_result.json'), 'w'), indent=1)
